@@ -156,6 +156,7 @@ type Exec struct {
 	oldStack   []map[ssa.Value]Val
 	oldCollect []map[ssa.Value]Val
 	lastDiscoverWrites [][2]string
+	noReassert         bool
 	specDepth  int
 	quantN     int
 	topFrame   *frame
@@ -1109,7 +1110,9 @@ func (e *Exec) loopHeader(f *frame, li *loopInfo, loops map[*ssa.BasicBlock]*loo
 	// havoc
 	h2 := h.clone()
 	if full {
+		e.noReassert = true // the filtered re-assertion below decides which private objects keep their content
 		h2 = e.havocAll(h2, "loop")
+		e.noReassert = false
 	} else {
 		for _, c := range modified {
 			h2.m[c] = e.s.freshConst("lh_"+c, e.compSort[c])
@@ -1519,7 +1522,9 @@ func (e *Exec) havocAll(h *Heap, why string) *Heap {
 			n.m[k] = e.hget(h, k)
 		}
 	}
-	e.reassertPrivate(h, n)
+	if !e.noReassert {
+		e.reassertPrivate(h, n)
+	}
 	return n
 }
 
